@@ -127,7 +127,24 @@ def _board(bid, owner, declarer, plays, k, stats=None):
                         pass
             if stats is not None and refused:
                 stats.cls('states queried after refused plays')
-        case = b.case({'seat': A.SEATS[s], 'k': k, 'refused_before_query': refused})
+        looked_ahead = False
+        if (i + k) % 4 == 1:
+            # a player that thinks ahead: every phase is deep-copied, the copy plays the next one or two cards (the ones that
+            # will really be played) and is thrown away - the playable sets of the real board are asked afterwards
+            looked_ahead = True
+            import copy
+            for env in [b.env] + list(b.obs):
+                cp = copy.deepcopy(env)
+                mm = copy.deepcopy(b.m)
+                for c2 in cards[i:i + 1 + (k + i) % 2]:
+                    try:
+                        cp.play_card_by_player(be.CARD[c2], be.SEAT[mm.turn])
+                    except Exception:  # noqa  (whether copies play correctly is C05's business)
+                        break
+                    mm.play(c2)
+            if stats is not None:
+                stats.cls('states queried after deep copies of every phase were played ahead and discarded')
+        case = b.case({'seat': A.SEATS[s], 'k': k, 'refused_before_query': refused, 'copies_played_ahead': looked_ahead})
         hand = set(b.hands[s])
         got = guard('current_available_cards_in_hand raises', case, b.env.current_available_cards_in_hand, be.SEAT[s])
         _expect(got, hand, led, "table manager's playable set is not the follow-suit set", case)
